@@ -58,13 +58,17 @@ var nativeLib = map[string]string{
 	"uf:strings.IndexByte#0":  "(define-fun |uf:strings.IndexByte#0| ((s Str) (c Int)) Int (str.indexof s (str.from_code c) 0))",
 	"uf:strings.TrimPrefix#0": "(define-fun |uf:strings.TrimPrefix#0| ((s Str) (p Str)) Str (ite (str.prefixof p s) (str.substr s (str.len p) (- (str.len s) (str.len p))) s))",
 	"uf:strings.TrimSuffix#0": "(define-fun |uf:strings.TrimSuffix#0| ((s Str) (p Str)) Str (ite (str.suffixof p s) (str.substr s 0 (- (str.len s) (str.len p))) s))",
-	"uf:strings.Count#0":      "",
+	// (cvc5 only: z3 has no case mapping; the query then falls through to cvc5)
+	"uf:strings.ToLower#0":   "(define-fun |uf:strings.ToLower#0| ((s Str)) Str (str.to_lower s))",
+	"uf:strings.ToUpper#0":   "(define-fun |uf:strings.ToUpper#0| ((s Str)) Str (str.to_upper s))",
+	"uf:strings.EqualFold#0": "(define-fun |uf:strings.EqualFold#0| ((s Str) (t Str)) Bool (= (str.to_lower s) (str.to_lower t)))",
 }
 
 type replayParam struct {
 	Name string
 	Term string
 	Ty   types.Type
+	In   *inNode
 }
 
 // replayPlan is attached to the VC of a function whose inputs are plain values.
@@ -79,6 +83,8 @@ type replayPlan struct {
 	sumStart int           // vc.lines[sumStart:sumEnd] = lines emitted while translating the summary postconditions
 	sumEnd   int
 	posts    map[string]string // clause name ("post.k" / "post.name") -> term over parameters and result constants
+	facts    []obsFact         // what the generated test observes about the results
+	pureIn   bool              // no modifies clause: postconditions can be evaluated over the entry heap
 	pkgDir   string            // directory of the package relative to the repository root
 	pkg      *types.Package
 }
@@ -147,7 +153,138 @@ func nativeLine(l string) string {
 	return l
 }
 
-func (vc *VC) nativeQuery(o *Obl, dropQuant bool, extra []string, getValues []string) string {
+// ---- expansion of range-bounded integer quantifiers (candidate finding only) ----
+
+func (n *sx) String() string {
+	if n.str {
+		return smtStringLit(n.atom)
+	}
+	if n.list == nil && n.atom != "" {
+		return n.atom
+	}
+	ps := make([]string, len(n.list))
+	for i, c := range n.list {
+		ps[i] = c.String()
+	}
+	return "(" + strings.Join(ps, " ") + ")"
+}
+
+func (n *sx) isList(head string) bool {
+	return n != nil && n.atom == "" && !n.str && len(n.list) > 0 && n.list[0].atom == head && n.list[0].list == nil
+}
+
+func (n *sx) subst(v string, by *sx) *sx {
+	if n.str {
+		return n
+	}
+	if n.list == nil {
+		if n.atom == v {
+			return by
+		}
+		return n
+	}
+	out := &sx{list: make([]*sx, len(n.list))}
+	for i, c := range n.list {
+		out.list[i] = c.subst(v, by)
+	}
+	return out
+}
+
+// lowerBound finds a conjunct (<= NUM v) among the leading guard of a quantifier body.
+func lowerBound(body *sx, v string) (int64, bool) {
+	var guard *sx
+	switch {
+	case body.isList("=>") && len(body.list) == 3:
+		guard = body.list[1]
+	case body.isList("and"):
+		guard = body
+	default:
+		return 0, false
+	}
+	var found int64
+	ok := false
+	var walk func(g *sx)
+	walk = func(g *sx) {
+		if g.isList("and") {
+			for _, c := range g.list[1:] {
+				walk(c)
+			}
+			return
+		}
+		if g.isList("<=") && len(g.list) == 3 && g.list[2].atom == v && g.list[2].list == nil {
+			if k, isNum := g.list[1].intValue(); isNum && !ok {
+				found, ok = k, true
+			}
+		}
+	}
+	walk(guard)
+	return found, ok
+}
+
+// expandQuant rewrites range-bounded integer quantifiers into finite conjunctions / disjunctions over the first
+// replaySliceMax+1 values of the range. ok=false: a quantifier that cannot be expanded remains.
+func expandQuant(n *sx) (*sx, bool) {
+	if n.str || n.list == nil {
+		return n, true
+	}
+	if (n.isList("forall") || n.isList("exists")) && len(n.list) == 3 {
+		binders := n.list[1]
+		body := n.list[2]
+		if body.isList("!") && len(body.list) >= 2 {
+			body = body.list[1]
+		}
+		if len(binders.list) == 1 && len(binders.list[0].list) == 2 && binders.list[0].list[1].atom == "Int" {
+			v := binders.list[0].list[0].atom
+			if lo, ok := lowerBound(body, v); ok {
+				op := "and"
+				if n.isList("exists") {
+					op = "or"
+				}
+				out := &sx{list: []*sx{{atom: op}}}
+				allOK := true
+				for k := lo; k <= lo+replaySliceMax; k++ {
+					val := &sx{atom: strconv.FormatInt(k, 10)}
+					if k < 0 {
+						val = &sx{list: []*sx{{atom: "-"}, {atom: strconv.FormatInt(-k, 10)}}}
+					}
+					inst, ok := expandQuant(body.subst(v, val))
+					allOK = allOK && ok
+					out.list = append(out.list, inst)
+				}
+				return out, allOK
+			}
+		}
+		return n, false
+	}
+	out := &sx{list: make([]*sx, len(n.list))}
+	allOK := true
+	for i, c := range n.list {
+		e, ok := expandQuant(c)
+		out.list[i] = e
+		allOK = allOK && ok
+	}
+	return out, allOK
+}
+
+// expandLine: the line with its bounded quantifiers expanded; "" when an unexpandable quantifier remains.
+func expandLine(l string) string {
+	if !strings.Contains(l, "(forall ") && !strings.Contains(l, "(exists ") {
+		return l
+	}
+	top := parseSexprs(l)
+	if len(top) != 1 {
+		return ""
+	}
+	e, ok := expandQuant(top[0])
+	if !ok {
+		return ""
+	}
+	return e.String()
+}
+
+// mode: "expand" (bounded quantifiers expanded, others dropped), "keep" (obligation lines verbatim), "drop"
+func (vc *VC) nativeQuery(o *Obl, mode string, extra []string, getValues []string) string {
+	dropQuant := mode == "drop"
 	var sb strings.Builder
 	for _, l := range vc.nativeHeader() {
 		sb.WriteString(nativeLine(l))
@@ -157,10 +294,21 @@ func (vc *VC) nativeQuery(o *Obl, dropQuant bool, extra []string, getValues []st
 		if nativeSkipLine(l, dropQuant) {
 			continue
 		}
+		if mode == "expand" {
+			if l = expandLine(l); l == "" {
+				continue
+			}
+		}
 		sb.WriteString(nativeLine(l))
 		sb.WriteByte('\n')
 	}
-	sb.WriteString(fmt.Sprintf("(assert (not %s))\n", implies(o.Guard, o.Goal)))
+	goal := fmt.Sprintf("(assert (not %s))", implies(o.Guard, o.Goal))
+	if mode == "expand" {
+		if g := expandLine(goal); g != "" {
+			goal = g
+		}
+	}
+	sb.WriteString(goal + "\n")
 	for _, e := range extra {
 		sb.WriteString(e)
 		sb.WriteByte('\n')
@@ -174,23 +322,92 @@ func (vc *VC) nativeQuery(o *Obl, dropQuant bool, extra []string, getValues []st
 
 // ---- eligibility and plan construction (called at the end of a function's translation) ----
 
-func plainValue(t types.Type, depth int) bool {
+// inNode describes how one input (or part of one) is read from a model and rebuilt as a Go value.
+type inNode struct {
+	kind string // scalar | struct | ptr | slice | zero
+	ty   types.Type
+	term string    // scalar / pointer / slice term; for zero: the term pinned to the zero value
+	kids []*inNode // struct: fields; ptr: pointee; slice: the first replaySliceMax elements
+}
+
+const replaySliceMax = 3
+
+type inBuilder struct {
+	ft     *fnTrans
+	budget int
+}
+
+// node builds the reader of a value `term` of type t living in the entry heap.
+func (b *inBuilder) node(term string, t types.Type, depth int) *inNode {
+	vc := b.ft.vc
+	t0 := t
 	t = types.Unalias(t)
+	b.budget--
+	if b.budget < 0 || depth < 0 {
+		return &inNode{kind: "zero", ty: t0, term: term}
+	}
 	switch u := t.Underlying().(type) {
 	case *types.Basic:
-		return u.Info()&(types.IsBoolean|types.IsInteger|types.IsString) != 0
+		if u.Info()&(types.IsBoolean|types.IsInteger|types.IsString) != 0 {
+			return &inNode{kind: "scalar", ty: t0, term: term}
+		}
 	case *types.Struct:
-		if depth <= 0 {
-			return false
-		}
+		n := &inNode{kind: "struct", ty: t0, term: term}
 		for i := 0; i < u.NumFields(); i++ {
-			if !plainValue(u.Field(i).Type(), depth-1) {
-				return false
-			}
+			n.kids = append(n.kids, b.node(vc.sorts.structGet(t0, i, term), u.Field(i).Type(), depth-1))
 		}
-		return true
+		return n
+	case *types.Pointer:
+		n := &inNode{kind: "ptr", ty: t0, term: term}
+		el := u.Elem()
+		if st, ok := types.Unalias(el).Underlying().(*types.Struct); ok {
+			pointee := &inNode{kind: "struct", ty: el}
+			for i := 0; i < st.NumFields(); i++ {
+				ft := sel(vc.get(b.ft.entry, vc.compField(el, i)), term)
+				pointee.kids = append(pointee.kids, b.node(ft, st.Field(i).Type(), depth-1))
+			}
+			n.kids = []*inNode{pointee}
+			return n
+		}
+		if _, isPtr := types.Unalias(el).Underlying().(*types.Pointer); !isPtr {
+			n.kids = []*inNode{b.node(sel(vc.get(b.ft.entry, vc.compCell(el)), term), el, depth-1)}
+			return n
+		}
+	case *types.Slice:
+		n := &inNode{kind: "slice", ty: t0, term: term}
+		arr := sel(vc.get(b.ft.entry, vc.compElems(u.Elem())), "(s-base "+term+")")
+		for j := 0; j < replaySliceMax; j++ {
+			n.kids = append(n.kids, b.node(sel(arr, fmt.Sprintf("(sidx (s-off %s) %d)", term, j)), u.Elem(), depth-1))
+		}
+		return n
 	}
-	return false
+	return &inNode{kind: "zero", ty: t0, term: term}
+}
+
+// leaves: the terms whose model values are needed, in a fixed order.
+func (n *inNode) leaves(out *[]string) {
+	switch n.kind {
+	case "scalar", "ptr":
+		*out = append(*out, n.term)
+	case "slice":
+		*out = append(*out, "(s-len "+n.term+")")
+	}
+	for _, k := range n.kids {
+		k.leaves(out)
+	}
+}
+
+// constraints that keep the candidate within what can be rebuilt
+func (n *inNode) bounds(vc *VC, out *[]string) {
+	switch n.kind {
+	case "slice":
+		*out = append(*out, fmt.Sprintf("(assert (<= (s-len %s) %d))", n.term, replaySliceMax))
+	case "zero":
+		*out = append(*out, "(assert "+eq(n.term, vc.sorts.zero(n.ty, vc.lits))+")")
+	}
+	for _, k := range n.kids {
+		k.bounds(vc, out)
+	}
 }
 
 func (ft *fnTrans) buildReplayPlan(entryPos int, requires []string) {
@@ -207,10 +424,8 @@ func (ft *fnTrans) buildReplayPlan(entryPos int, requires []string) {
 		pkgDir: strings.TrimPrefix(strings.TrimPrefix(obj.Pkg().Path(), modulePath), "/")}
 	sig := obj.Type().(*types.Signature)
 	for i, p := range fn.Params {
-		if !plainValue(p.Type(), 3) {
-			return
-		}
-		rp := replayParam{Name: p.Name(), Term: ft.vals[p], Ty: p.Type()}
+		ib := &inBuilder{ft: ft, budget: 600}
+		rp := replayParam{Name: p.Name(), Term: ft.vals[p], Ty: p.Type(), In: ib.node(ft.vals[p], p.Type(), 6)}
 		if i == 0 && sig.Recv() != nil {
 			plan.recv = &rp
 		} else {
@@ -237,6 +452,12 @@ func (ft *fnTrans) buildReplayPlan(entryPos int, requires []string) {
 	if env.old != nil {
 		env.old.results = env.results
 	}
+	ob := &obsBuilder{ft: ft, g: obj.Pkg(), budget: 300}
+	for i, r := range plan.results {
+		ob.observe("", fmt.Sprintf("r%d", i), r.Term, r.Ty, 4)
+	}
+	plan.facts = ob.facts
+	plan.pureIn = len(ft.fc.Modifies) == 0
 	for k, e := range ft.fc.Ensures {
 		name := fmt.Sprintf("post.%d", k)
 		if e.Name != "" {
@@ -385,24 +606,11 @@ func (n *sx) intValue() (int64, bool) {
 	return v, err == nil
 }
 
-// leaves enumerates the scalar leaves (term, type) of a plain value.
-func (vc *VC) plainLeaves(term string, t types.Type) []replayParam {
-	t0 := t
-	t = types.Unalias(t)
-	switch u := t.Underlying().(type) {
-	case *types.Struct:
-		var out []replayParam
-		for i := 0; i < u.NumFields(); i++ {
-			out = append(out, vc.plainLeaves(vc.sorts.structGet(t0, i, term), u.Field(i).Type())...)
-		}
-		return out
-	}
-	return []replayParam{{Term: term, Ty: t0}}
-}
-
 type goGen struct {
 	pkg     *types.Package
 	imports map[string]string // path -> alias
+	objs    map[string]string // pointer type @ model address -> variable holding the object
+	decls   []string
 }
 
 func (g *goGen) qual(p *types.Package) string {
@@ -438,17 +646,26 @@ func goBytesLit(s string) string {
 	return sb.String()
 }
 
-// goLiteral builds the Go literal of a plain value from its leaf values (consumed in order).
-func (g *goGen) goLiteral(t types.Type, vals *[]*sx) (string, bool) {
-	t0 := t
-	t = types.Unalias(t)
-	switch u := t.Underlying().(type) {
-	case *types.Basic:
+// lit builds the Go expression of an input from the model values of its leaves (consumed in the order of leaves()).
+// Objects behind equal non-nil pointer values are shared (declared once in g.decls).
+func (g *goGen) lit(n *inNode, vals *[]*sx) (string, bool) {
+	next := func() *sx {
 		if len(*vals) == 0 {
-			return "", false
+			return nil
 		}
 		v := (*vals)[0]
 		*vals = (*vals)[1:]
+		return v
+	}
+	switch n.kind {
+	case "zero":
+		return "vZero[" + g.typeStr(n.ty) + "]()", true
+	case "scalar":
+		v := next()
+		if v == nil {
+			return "", false
+		}
+		u := types.Unalias(n.ty).Underlying().(*types.Basic)
 		var lit string
 		switch {
 		case u.Info()&types.IsBoolean != 0:
@@ -457,86 +674,221 @@ func (g *goGen) goLiteral(t types.Type, vals *[]*sx) (string, bool) {
 			}
 			lit = v.atom
 		case u.Info()&types.IsInteger != 0:
-			n, ok := v.intValue()
+			k, ok := v.intValue()
 			if !ok {
 				return "", false
 			}
-			lit = strconv.FormatInt(n, 10)
+			lit = strconv.FormatInt(k, 10)
 		case u.Info()&types.IsString != 0:
 			if !v.str {
 				return "", false
 			}
 			lit = goBytesLit(v.atom)
-		default:
-			return "", false
 		}
-		return g.typeStr(t0) + "(" + lit + ")", true
-	case *types.Struct:
+		return g.typeStr(n.ty) + "(" + lit + ")", true
+	case "struct":
+		st := types.Unalias(n.ty).Underlying().(*types.Struct)
 		var fs []string
-		for i := 0; i < u.NumFields(); i++ {
-			f := u.Field(i)
-			fl, ok := g.goLiteral(f.Type(), vals)
+		for i, k := range n.kids {
+			f := st.Field(i)
+			if (!f.Exported() && f.Pkg() != g.pkg) || f.Name() == "_" || k.kind == "zero" {
+				// cannot be set from here (or is the zero value anyway): left at its zero value; its leaves are skipped
+				var skipped []string
+				k.leaves(&skipped)
+				if len(skipped) > len(*vals) {
+					return "", false
+				}
+				*vals = (*vals)[len(skipped):]
+				continue
+			}
+			fl, ok := g.lit(k, vals)
 			if !ok {
 				return "", false
 			}
-			if !f.Exported() && f.Pkg() != g.pkg {
-				continue // cannot be set from here: left at its zero value
-			}
-			if f.Name() == "_" {
-				continue
-			}
 			fs = append(fs, f.Name()+": "+fl)
 		}
-		return g.typeStr(t0) + "{" + strings.Join(fs, ", ") + "}", true
+		return g.typeStr(n.ty) + "{" + strings.Join(fs, ", ") + "}", true
+	case "ptr":
+		v := next()
+		if v == nil {
+			return "", false
+		}
+		addr, ok := v.intValue()
+		if !ok {
+			return "", false
+		}
+		key := fmt.Sprintf("%s@%d", g.typeStr(n.ty), addr)
+		if name, seen := g.objs[key]; seen || addr == 0 {
+			// the pointee's leaves are skipped (fixed order)
+			var skipped []string
+			n.kids[0].leaves(&skipped)
+			if len(skipped) > len(*vals) {
+				return "", false
+			}
+			*vals = (*vals)[len(skipped):]
+			if addr == 0 {
+				return "(" + g.typeStr(n.ty) + ")(nil)", true
+			}
+			return name, true
+		}
+		pointee, ok := g.lit(n.kids[0], vals)
+		if !ok {
+			return "", false
+		}
+		name := fmt.Sprintf("vo%d", len(g.objs))
+		g.objs[key] = name
+		g.decls = append(g.decls, fmt.Sprintf("\t%s := vPtr(%s)\n\t_ = %s", name, pointee, name))
+		return name, true
+	case "slice":
+		v := next()
+		if v == nil {
+			return "", false
+		}
+		ln, ok := v.intValue()
+		if !ok {
+			return "", false
+		}
+		var es []string
+		for j, k := range n.kids {
+			el, ok := g.lit(k, vals)
+			if !ok {
+				return "", false
+			}
+			if int64(j) < ln {
+				es = append(es, el)
+			}
+		}
+		if ln <= 0 {
+			return "(" + g.typeStr(n.ty) + ")(nil)", true
+		}
+		return g.typeStr(n.ty) + "{" + strings.Join(es, ", ") + "}", true
 	}
 	return "", false
 }
 
-// smtRender returns a Go expression (string-typed) that renders `expr` of type t as an SMT term; values the
-// engine cannot observe are rendered with a leading '?'.
-func (g *goGen) smtRender(vc *VC, expr string, t types.Type, depth int) string {
+// obsFact: one observable fact about a result, printed by the generated test and asserted on the summary state.
+type obsFact struct {
+	guard string // Go condition under which the fact is observable ("" = always)
+	expr  string // Go expression observed
+	term  string // SMT term it corresponds to
+	kind  string // bool | int | uint | str | ref | iface | len
+}
+
+type obsBuilder struct {
+	ft     *fnTrans
+	g      *types.Package
+	facts  []obsFact
+	budget int
+}
+
+func andGuard(a, b string) string {
+	if a == "" {
+		return b
+	}
+	if b == "" {
+		return a
+	}
+	return a + " && " + b
+}
+
+// observe records the facts of value `expr` (Go) / `term` (SMT, entry heap) of type t.
+func (b *obsBuilder) observe(guard, expr, term string, t types.Type, depth int) {
+	vc := b.ft.vc
 	t0 := t
 	t = types.Unalias(t)
+	b.budget--
+	if b.budget < 0 || depth < 0 {
+		return
+	}
 	switch u := t.Underlying().(type) {
 	case *types.Basic:
 		switch {
 		case u.Info()&types.IsBoolean != 0:
-			return "vSmtBool(bool(" + expr + "))"
+			b.facts = append(b.facts, obsFact{guard, "bool(" + expr + ")", term, "bool"})
 		case u.Info()&types.IsInteger != 0 && u.Info()&types.IsUnsigned == 0:
-			return "vSmtInt(int64(" + expr + "))"
+			b.facts = append(b.facts, obsFact{guard, "int64(" + expr + ")", term, "int"})
 		case u.Info()&types.IsInteger != 0:
-			return "vSmtUint(uint64(" + expr + "))"
+			b.facts = append(b.facts, obsFact{guard, "uint64(" + expr + ")", term, "uint"})
 		case u.Info()&types.IsString != 0:
-			return "vSmtStr(string(" + expr + "))"
+			b.facts = append(b.facts, obsFact{guard, "string(" + expr + ")", term, "str"})
 		}
-	case *types.Pointer, *types.Map, *types.Chan, *types.Signature:
-		return "vSmtRef(" + expr + " == nil)"
-	case *types.Interface:
-		return "vSmtIface(" + expr + " == nil)"
-	case *types.Slice:
-		return "vSmtSlice(len(" + expr + "))"
 	case *types.Struct:
-		if depth > 0 {
-			var parts []string
-			ok := true
-			for i := 0; i < u.NumFields(); i++ {
-				f := u.Field(i)
-				if (!f.Exported() && f.Pkg() != g.pkg) || f.Name() == "_" {
-					ok = false
-					break
-				}
-				parts = append(parts, g.smtRender(vc, "("+expr+")."+f.Name(), f.Type(), depth-1))
+		for i := 0; i < u.NumFields(); i++ {
+			f := u.Field(i)
+			if (!f.Exported() && f.Pkg() != b.g) || f.Name() == "_" {
+				continue
 			}
-			if ok {
-				if len(parts) == 0 {
-					parts = []string{`"0"`}
+			b.observe(guard, "("+expr+")."+f.Name(), vc.sorts.structGet(t0, i, term), f.Type(), depth-1)
+		}
+	case *types.Pointer:
+		b.facts = append(b.facts, obsFact{guard, expr + " == nil", term, "ref"})
+		el := u.Elem()
+		ng := andGuard(guard, expr+" != nil")
+		if st, ok := types.Unalias(el).Underlying().(*types.Struct); ok {
+			for i := 0; i < st.NumFields(); i++ {
+				f := st.Field(i)
+				if (!f.Exported() && f.Pkg() != b.g) || f.Name() == "_" {
+					continue
 				}
-				mk := "(" + q("mk:"+vc.sorts.structName(t0))
-				return strconv.Quote(mk+" ") + " + " + strings.Join(parts, ` + " " + `) + ` + ")"`
+				b.observe(ng, "("+expr+")."+f.Name(), sel(vc.get(b.ft.entry, vc.compField(el, i)), term), f.Type(), depth-1)
 			}
+		} else if _, isPtr := types.Unalias(el).Underlying().(*types.Pointer); !isPtr {
+			b.observe(ng, "*("+expr+")", sel(vc.get(b.ft.entry, vc.compCell(el)), term), el, depth-1)
+		}
+	case *types.Map, *types.Chan, *types.Signature:
+		b.facts = append(b.facts, obsFact{guard, expr + " == nil", term, "ref"})
+	case *types.Interface:
+		b.facts = append(b.facts, obsFact{guard, expr + " == nil", term, "iface"})
+	case *types.Slice:
+		b.facts = append(b.facts, obsFact{guard, "len(" + expr + ")", term, "len"})
+		arr := sel(vc.get(b.ft.entry, vc.compElems(u.Elem())), "(s-base "+term+")")
+		for j := 0; j < replaySliceMax; j++ {
+			b.observe(andGuard(guard, fmt.Sprintf("len(%s) > %d", expr, j)), fmt.Sprintf("(%s)[%d]", expr, j), sel(arr, fmt.Sprintf("(sidx (s-off %s) %d)", term, j)), u.Elem(), depth-1)
 		}
 	}
-	return `"?"`
+}
+
+// goPrint: the statement of the generated test that prints fact k
+func (f obsFact) goPrint(k int) string {
+	var val string
+	switch f.kind {
+	case "bool":
+		val = "vSmtBool(" + f.expr + ")"
+	case "int":
+		val = "vSmtInt(" + f.expr + ")"
+	case "uint":
+		val = "vSmtUint(" + f.expr + ")"
+	case "str":
+		val = "vSmtStr(" + f.expr + ")"
+	case "ref", "iface":
+		val = "vSmtBool(" + f.expr + ")"
+	case "len":
+		val = "strconv.Itoa(" + f.expr + ")"
+	}
+	st := fmt.Sprintf("fmt.Println(\"VERIF-REPLAY-FACT %d \" + %s)", k, val)
+	if f.guard != "" {
+		return "\tif " + f.guard + " { " + st + " }"
+	}
+	return "\t" + st
+}
+
+// smtAssert: the assertion for the observed value v of the fact
+func (f obsFact) smtAssert(v string) string {
+	switch f.kind {
+	case "ref":
+		if v == "true" {
+			return "(assert (= " + f.term + " 0))"
+		}
+		return "(assert (not (= " + f.term + " 0)))"
+	case "iface":
+		if v == "true" {
+			return "(assert (= " + f.term + " nil-iface))"
+		}
+		return "(assert (not (= " + f.term + " nil-iface)))"
+	case "len":
+		return "(assert (= (s-len " + f.term + ") " + v + "))"
+	}
+	return "(assert (= " + f.term + " " + v + "))"
 }
 
 const replayHelpers = `
@@ -563,6 +915,8 @@ func vSmtStr(s string) string {
 func vSmtRef(isNil bool) string { if isNil { return "0" }; return "?nonnil-ref" }
 func vSmtIface(isNil bool) string { if isNil { return "nil-iface" }; return "?nonnil-iface" }
 func vSmtSlice(n int) string { return "?len:" + strconv.Itoa(n) }
+func vPtr[T any](v T) *T { return &v }
+func vZero[T any]() T { var z T; return z }
 `
 
 type replayOutcome struct {
@@ -595,31 +949,24 @@ func tryReplay(o *runOpts, ob *Obl, rep map[string]any) (bool, map[string]any) {
 		return false, nil
 	}
 	defer os.RemoveAll(scratch)
-	// leaves of all inputs
+	// what to read from the model
 	var inputs []replayParam
 	if plan.recv != nil {
 		inputs = append(inputs, *plan.recv)
 	}
 	inputs = append(inputs, plan.params...)
-	var leaves []replayParam
+	var leafTerms, bounds []string
 	for _, in := range inputs {
-		leaves = append(leaves, vc.plainLeaves(in.Term, in.Ty)...)
-	}
-	var leafTerms []string
-	for _, l := range leaves {
-		leafTerms = append(leafTerms, l.Term)
+		in.In.leaves(&leafTerms)
+		in.In.bounds(vc, &bounds)
 	}
 	info := map[string]any{"method": "the failed obligation re-issued over the solvers' native theory of strings (quantified axioms dropped) to obtain a candidate model; the candidate is run on the real function inside its package (go test -overlay)"}
-	var blocks []string
+	blocks := append([]string(nil), bounds...)
 	var attempts []map[string]any
 	for attempt := 0; attempt < 4; attempt++ {
 		var st, out string
-		for _, drop := range []bool{false, true} {
-			if len(leafTerms) == 0 {
-				st, out = runModelQuery(scratch, fmt.Sprintf("m%d", attempt), vc.nativeQuery(ob, drop, blocks, nil), 8*time.Second)
-			} else {
-				st, out = runModelQuery(scratch, fmt.Sprintf("m%d", attempt), vc.nativeQuery(ob, drop, blocks, leafTerms), 8*time.Second)
-			}
+		for _, mode := range []string{"expand", "keep", "drop"} {
+			st, out = runModelQuery(scratch, fmt.Sprintf("m%d", attempt), vc.nativeQuery(ob, mode, blocks, leafTerms), 8*time.Second)
 			if st == "sat" {
 				break
 			}
@@ -648,17 +995,24 @@ func tryReplay(o *runOpts, ob *Obl, rep map[string]any) (bool, map[string]any) {
 		}
 		// blocking clause for the next candidate
 		var eqs []string
-		for i, l := range leaves {
-			eqs = append(eqs, eq(l.Term, sxToSmt(vals[i])))
+		for i, t := range leafTerms {
+			eqs = append(eqs, eq(t, sxToSmt(vals[i])))
 		}
 		if len(eqs) > 0 {
 			blocks = append(blocks, "(assert (not "+and(eqs...)+"))")
 		}
-		att := plan.runCandidate(o, ob, scratch, attempt, inputs, leaves, vals)
+		att := plan.runCandidate(o, ob, scratch, attempt, inputs, leafTerms, bounds, vals)
 		attempts = append(attempts, att)
 		if att["verdict"] == "reproduced" {
 			info["candidates"] = attempts
 			info["failing_input"] = att["input"]
+			if v, ok := att["input_setup"]; ok {
+				info["failing_input_setup"] = v
+			}
+			info["generated_test"] = att["test_source"]
+			for _, a := range attempts {
+				delete(a, "test_source")
+			}
 			info["observed"] = att["observed"]
 			info["how_to_rerun"] = att["how_to_rerun"]
 			return true, info
@@ -666,6 +1020,9 @@ func tryReplay(o *runOpts, ob *Obl, rep map[string]any) (bool, map[string]any) {
 		if len(eqs) == 0 {
 			break
 		}
+	}
+	for _, a := range attempts {
+		delete(a, "test_source")
 	}
 	info["candidates"] = attempts
 	rep["replay_attempts"] = info
@@ -686,15 +1043,15 @@ func sxToSmt(n *sx) string {
 	return n.atom
 }
 
-func (plan *replayPlan) runCandidate(o *runOpts, ob *Obl, scratch string, attempt int, inputs, leaves []replayParam, vals []*sx) map[string]any {
+func (plan *replayPlan) runCandidate(o *runOpts, ob *Obl, scratch string, attempt int, inputs []replayParam, leafTerms, bounds []string, vals []*sx) map[string]any {
 	vc := plan.vc
 	att := map[string]any{"candidate": attempt}
-	g := &goGen{pkg: plan.pkg, imports: map[string]string{}}
+	g := &goGen{pkg: plan.pkg, imports: map[string]string{}, objs: map[string]string{}}
 	rest := append([]*sx(nil), vals...)
 	var args []string
 	inputDesc := map[string]string{}
 	for _, in := range inputs {
-		lit, ok := g.goLiteral(in.Ty, &rest)
+		lit, ok := g.lit(in.In, &rest)
 		if !ok {
 			att["verdict"] = "candidate not expressible as Go literals"
 			return att
@@ -703,11 +1060,15 @@ func (plan *replayPlan) runCandidate(o *runOpts, ob *Obl, scratch string, attemp
 		inputDesc[in.Name] = lit
 	}
 	att["input"] = inputDesc
+	if len(g.decls) > 0 {
+		att["input_setup"] = truncate(strings.Join(g.decls, "\n"), 6000)
+	}
 	// 1. the candidate must satisfy the precondition (decided on the concrete values)
 	var pin []string
-	for i, l := range leaves {
-		pin = append(pin, "(assert "+eq(l.Term, sxToSmt(vals[i]))+")")
+	for i, t := range leafTerms {
+		pin = append(pin, "(assert "+eq(t, sxToSmt(vals[i]))+")")
 	}
+	pin = append(pin, bounds...)
 	if len(plan.requires) > 0 {
 		var sb strings.Builder
 		for _, l := range vc.nativeHeader() {
@@ -733,9 +1094,12 @@ func (plan *replayPlan) runCandidate(o *runOpts, ob *Obl, scratch string, attemp
 		call = "(" + args[0] + ")." + plan.fnName + "(" + strings.Join(args[1:], ", ") + ")"
 	}
 	var resNames, renders []string
-	for i, r := range plan.results {
+	for i := range plan.results {
 		resNames = append(resNames, fmt.Sprintf("r%d", i))
-		renders = append(renders, fmt.Sprintf("\tfmt.Println(\"VERIF-REPLAY-RESULT %d \" + %s)", i, g.smtRender(vc, fmt.Sprintf("r%d", i), r.Ty, 3)))
+		renders = append(renders, fmt.Sprintf("\t_ = r%d", i))
+	}
+	for k, f := range plan.facts {
+		renders = append(renders, f.goPrint(k))
 	}
 	assign := ""
 	if len(resNames) > 0 {
@@ -747,8 +1111,11 @@ func (plan *replayPlan) runCandidate(o *runOpts, ob *Obl, scratch string, attemp
 		paths = append(paths, p)
 	}
 	sort.Strings(paths)
+	body := strings.Join(g.decls, "\n") + "\n" + call + "\n" + strings.Join(renders, "\n")
 	for _, p := range paths {
-		imps = append(imps, fmt.Sprintf("\t%s %q", g.imports[p], p))
+		if strings.Contains(body, g.imports[p]+".") { // aliases of discarded sub-literals are not imported
+			imps = append(imps, fmt.Sprintf("\t%s %q", g.imports[p], p))
+		}
 	}
 	src := fmt.Sprintf(`package %s
 
@@ -772,10 +1139,11 @@ func TestVerifReplayCandidate(t *testing.T) {
 		}
 		fmt.Println("VERIF-REPLAY-DONE")
 	}()
+%s
 	%s%s
 %s
 }
-`, plan.pkg.Name(), strings.Join(imps, "\n"), replayHelpers, assign, call, strings.Join(renders, "\n"))
+`, plan.pkg.Name(), strings.Join(imps, "\n"), replayHelpers, strings.Join(g.decls, "\n"), assign, call, strings.Join(renders, "\n"))
 	testFile := filepath.Join(scratch, fmt.Sprintf("zz_verif_replay_%d_test.go", attempt))
 	os.WriteFile(testFile, []byte(src), 0o644)
 	target := filepath.Join(o.repo, plan.pkgDir, "zz_verif_replay_candidate_test.go")
@@ -785,7 +1153,16 @@ func TestVerifReplayCandidate(t *testing.T) {
 	cmd := exec.Command("go", "test", "-overlay", ovPath, "-vet=off", "-v", "-count=1", "-timeout=60s", "-run", "^TestVerifReplayCandidate$", "./"+plan.pkgDir)
 	cmd.Dir = o.repo
 	cmd.Env = append(os.Environ(), "GOFLAGS=-mod=mod", "GOPROXY=off", "GOCACHE="+goCacheDir())
+	// the module files of the repository must come out of the run exactly as they went in
+	modBefore, _ := os.ReadFile(filepath.Join(o.repo, "go.mod"))
+	sumBefore, _ := os.ReadFile(filepath.Join(o.repo, "go.sum"))
 	outB, _ := cmd.CombinedOutput()
+	if b, err := os.ReadFile(filepath.Join(o.repo, "go.mod")); err == nil && modBefore != nil && string(b) != string(modBefore) {
+		os.WriteFile(filepath.Join(o.repo, "go.mod"), modBefore, 0o644)
+	}
+	if b, err := os.ReadFile(filepath.Join(o.repo, "go.sum")); err == nil && sumBefore != nil && string(b) != string(sumBefore) {
+		os.WriteFile(filepath.Join(o.repo, "go.sum"), sumBefore, 0o644)
+	}
 	out := string(outB)
 	att["how_to_rerun"] = fmt.Sprintf("in package %s of the repository: call %s (the generated test is kept next to this file)", plan.pkgDir, call)
 	att["test_source"] = src
@@ -799,10 +1176,10 @@ func TestVerifReplayCandidate(t *testing.T) {
 		if i := strings.Index(line, "VERIF-REPLAY-PANIC "); i >= 0 {
 			panicked = line[i+len("VERIF-REPLAY-PANIC "):]
 		}
-		if i := strings.Index(line, "VERIF-REPLAY-RESULT "); i >= 0 {
-			f := strings.SplitN(line[i+len("VERIF-REPLAY-RESULT "):], " ", 2)
+		if i := strings.Index(line, "VERIF-REPLAY-FACT "); i >= 0 {
+			f := strings.SplitN(line[i+len("VERIF-REPLAY-FACT "):], " ", 2)
 			if len(f) == 2 {
-				observed["result"+f[0]] = f[1]
+				observed[f[0]] = f[1]
 			}
 		}
 		if strings.Contains(line, "VERIF-REPLAY-DONE") {
@@ -824,7 +1201,6 @@ func TestVerifReplayCandidate(t *testing.T) {
 		att["observed"] = "the real function panics on this input (which satisfies its precondition): " + panicked
 		return att
 	}
-	att["observed"] = observed
 	if !strings.HasPrefix(ob.Kind, "post") {
 		att["verdict"] = "the real function returns normally on this candidate"
 		return att
@@ -835,8 +1211,8 @@ func TestVerifReplayCandidate(t *testing.T) {
 		name = name[:i]
 	}
 	post, ok := plan.posts[name]
-	if !ok {
-		att["verdict"] = "clause has no summary form"
+	if !ok || !plan.pureIn {
+		att["verdict"] = "clause has no summary form over the entry heap (the function modifies its inputs or the clause could not be restated)"
 		return att
 	}
 	var sb strings.Builder
@@ -856,26 +1232,31 @@ func TestVerifReplayCandidate(t *testing.T) {
 	for _, p := range pin {
 		sb.WriteString(p + "\n")
 	}
-	for i, r := range plan.results {
-		v := observed[fmt.Sprintf("result%d", i)]
-		switch {
-		case v == "":
-		case !strings.Contains(v, "?"):
-			sb.WriteString("(assert " + eq(r.Term, v) + ")\n")
-		case v == "?nonnil-ref":
-			sb.WriteString("(assert (not (= " + r.Term + " 0)))\n")
-		case v == "?nonnil-iface":
-			sb.WriteString("(assert (not (= " + r.Term + " nil-iface)))\n")
-		case strings.HasPrefix(v, "?len:"):
-			sb.WriteString("(assert (= (s-len " + r.Term + ") " + strings.TrimPrefix(v, "?len:") + "))\n")
+	shown := map[string]string{}
+	for k, f := range plan.facts {
+		if v, ok := observed[strconv.Itoa(k)]; ok {
+			sb.WriteString(f.smtAssert(v) + "\n")
+			if len(shown) < 40 {
+				shown[f.expr] = v
+			}
 		}
 	}
+	att["observed"] = shown
 	base := sb.String()
-	stPos, _ := runModelQuery(scratch, fmt.Sprintf("post%d", attempt), base+"(assert "+post+")\n(check-sat)\n", 8*time.Second)
-	stNeg, _ := runModelQuery(scratch, fmt.Sprintf("npost%d", attempt), base+"(assert (not "+post+"))\n(check-sat)\n", 8*time.Second)
+	// (bounded quantifiers of the clause are expanded over the observed prefix: exact when the slices involved are
+	// no longer than replaySliceMax, which the candidate bounds ensure for the inputs)
+	posA, negA := "(assert "+post+")", "(assert (not "+post+"))"
+	if e := expandLine(posA); e != "" {
+		posA = e
+	}
+	if e := expandLine(negA); e != "" {
+		negA = e
+	}
+	stPos, _ := runModelQuery(scratch, fmt.Sprintf("post%d", attempt), base+posA+"\n(check-sat)\n", 8*time.Second)
+	stNeg, _ := runModelQuery(scratch, fmt.Sprintf("npost%d", attempt), base+negA+"\n(check-sat)\n", 8*time.Second)
 	if stPos == "unsat" && stNeg == "sat" {
 		att["verdict"] = "reproduced"
-		att["observed"] = map[string]any{"results": observed, "clause": ob.Src, "evaluation": "the clause is false on these concrete inputs and observed results (decided by the solver on ground terms)"}
+		att["observed"] = map[string]any{"results": shown, "clause": ob.Src, "evaluation": "the clause is false on these concrete inputs and observed results (decided by the solver on ground terms)"}
 		return att
 	}
 	att["verdict"] = fmt.Sprintf("clause not refuted on the observed results (clause: %s, negation: %s)", stPos, stNeg)
